@@ -202,11 +202,16 @@ func discharge(u *Unit, o *Obligation, cfg *solveCfg, idx int) {
 	if record(runSolver("z3-new", file, 3)) {
 		return
 	}
+	slowT := cfg.slowT
+	if strings.Contains(o.Tag, "slow") {
+		// a clause marked slow in its contract gets three times the budget (it is known to need tens of seconds)
+		slowT *= 3
+	}
 	race := []string{"z3-new", "z3", "cvc5"}
 	ctx, cancel := context.WithCancel(context.Background())
 	ch := make(chan solveResult, len(race))
 	for _, s := range race {
-		go func(s string) { ch <- runSolverCtx(ctx, s, file, cfg.slowT) }(s)
+		go func(s string) { ch <- runSolverCtx(ctx, s, file, slowT) }(s)
 	}
 	done := false
 	for range race {
